@@ -284,7 +284,7 @@ def classify (live : List Inst) (kind hm path impl model prevModel : String) : J
             | some m =>
               if m.tid != r.tid then
                 if prevModel == model then .viol s!"earlier-claimant-{m.tid}-lost-it-to:{r.tid}"
-                else .diff s!"contested: model={m.tid} impl={r.tid}"
+                else .viol s!"wrong-claimant:earliest-live-claimant-is-{m.tid},answered-by-{r.tid}"
               else
                 match r.fields, m.fields with
                 | [rm, rid, rn, rs, rh, re], [mm, mid, mn, ms, mh, me] =>
@@ -302,7 +302,7 @@ def classify (live : List Inst) (kind hm path impl model prevModel : String) : J
         else if impl == "-501" || impl == "-400" then .diff "bridge-level outcome differs"
         else if cands.length == 1 then .viol s!"settled-contract-not-routable:{m.tid}"
         else if prevModel == model then .viol s!"earlier-claimant-lost-the-service:{m.tid}"
-        else .diff s!"contested and unrouted: model={m.tid}"
+        else .viol s!"released-service-unrouted:{m.tid}-still-lists-it"
       | none =>
         if (impl == "-14" || impl == "-503") && (model == "-12" || model == "-404") then
           .viol "a-route-of-an-absent-target-is-still-in-the-table(Unavailable)"
